@@ -87,7 +87,7 @@ CLAIMS = {
              "initialize_sparse agree. Does not decide value() against the docstring formula, "
              "nor the internals of Cox's risk-set recursions (opaque operators), nor floating "
              "point agreement."
-             " Every datafit accessor that exists in a dense and a _sparse version (gradients, coordinate / group / global Lipschitz constants; spectral norms compared through the matrix they are taken of) and full_grad_sparse against the stacked coordinate gradients are equal terms on a 3x3 design with structural zeros. Dense and CSC gradient builders of every solver family are equal terms on a 3x3 design with structural zeros, non-contiguous groups and a permuted working set; Cox: raw_grad is the derivative of value(), the risk-set operators are adjoint pairs and match their definitions on six tie / censoring patterns under both conventions.",
+             " Datafits used through their prox (Pinball, SqrtQuadratic): the prox output is stationary for the datafit's own value() on sign regions of a two-sample problem and prox_conjugate is the Moreau transform of prox. Every datafit accessor that exists in a dense and a _sparse version (gradients, coordinate / group / global Lipschitz constants; spectral norms compared through the matrix they are taken of) and full_grad_sparse against the stacked coordinate gradients are equal terms on a 3x3 design with structural zeros. Dense and CSC gradient builders of every solver family are equal terms on a 3x3 design with structural zeros, non-contiguous groups and a permuted working set; Cox: raw_grad is the derivative of value(), the risk-set operators are adjoint pairs and match their definitions on six tie / censoring patterns under both conventions.",
         design_ref="DESIGN.md §2 L5, §3.5 R-SIB/R-DERIV, §4 C06",
         note="Trusted: identity list of sa/algebra.py, the lifting of CSC column loops to "
              "mask-weighted sums, domain table (Logistic labels in {-1,1}).",
